@@ -553,6 +553,10 @@ def handleCore (mac : Bool) (args : List String) (obs : String) : Option Reply :
   let listing := ps.act = "list" ∨ ps.act = "terse" ∨ ps.act = "listapi"
   let execAct : Action := if ps.act = "bench" ∨ ps.act = "benchapi" then .bench else .test
   let sel := if ps.pos.isEmpty ∧ ps.neg.isEmpty then "[C12][C13]" else "[C13]"
+  -- the hypothesis of the C16 order theorems, evaluated on this very tree
+  let sortedTree := sortList ps.cfg.attr ps.cfg.rev fbits
+    (retainList (isSelected (filterSet ps.cfg.filters)) "" (buildTree pr))
+  let sibAll := levelsOk sortedTree
   let nbRuns := ((casesAll.filter fun c => isNb c.slot).filter fun c => specSelected ps.pos ps.neg c.path).filter fun c =>
     specShouldRun ps.cfg.runIgnored ((resolve (·.ig) ps.cfg.runtime c.chain).getD false)
   let v : List String :=
@@ -710,6 +714,18 @@ def handleCore (mac : Bool) (args : List String) (obs : String) : Option Reply :
           if msEq printed want then [] else
           [s!"[C12][C20] the modules, groups and benchmarks above the shown cases are not printed exactly once each (parent rows per depth: printed {(List.range 8).map fun d => printed.count d}, written {(List.range 8).map fun d => want.count d})"]
         else []) ++
+       -- C16/C20: the same rows in another order. Where no two siblings compare `Equal` and every sibling
+       -- set is well-formed, the ascending order is unique (Props/C16Order: siblings_ascending,
+       -- C16.sorted_unique), so the model's sequence *is* the documented sorted depth-first order
+       (if ps.act ≠ "terse" ∧ (seg 'X') = "0" ∧ !clash ∧ !r.ambiguous ∧ sibAll then
+          let rowsOf (t : String) : List (Nat × String) := ((t.splitOn "\n").filterMap parseTLine).map fun x => (x.depth, x.label)
+          let mine := rowsOf implOut
+          let want := rowsOf outTxt
+          if mine ≠ want ∧ msEq mine want then
+            let i := ((List.range mine.length).find? fun k => mine.getD k (0, "") ≠ want.getD k (0, "")).getD 0
+            [s!"[C16][C20] the rows are not in the documented sorted depth-first order (row {i}: `{(mine.getD i (0, "")).2}` is printed where `{(want.getD i (0, "")).2}` belongs)"]
+          else []
+        else []) ++
        -- C20: glyphs of the printed tree, judged on the text alone
        (if ps.act ≠ "terse" ∧ (seg 'X') = "0" then
           match treeGlyphsOk implOut with
@@ -726,10 +742,6 @@ def handleCore (mac : Bool) (args : List String) (obs : String) : Option Reply :
           if bad ∧ !clash ∧ hexS outTxt = seg 'O' then ["[C17] a case was run with an argument other than the one its label names"] else []
         else []))
   let verdict := if v.isEmpty then "ok" else "bad:" ++ " ;; ".intercalate v
-  -- the hypothesis of the C16 order theorems, evaluated on this very tree
-  let sortedTree := sortList ps.cfg.attr ps.cfg.rev fbits
-    (retainList (isSelected (filterSet ps.cfg.filters)) "" (buildTree pr))
-  let sibAll := levelsOk sortedTree
   let tag :=
     if ps.items.isEmpty then "trivial-empty" else
     s!"{ps.act}-{if ps.pos.isEmpty ∧ ps.neg.isEmpty then "nofilter" else "filter"}-ign{ps.cfg.runIgnored}" ++
